@@ -228,20 +228,24 @@ theorem write_gro_pure [Scalar α] (toDy : α → Option PyStr.Dy) (h : Heap α)
   cases env[i]? <;> simp [YStepR.fail, pushRetY]
 
 /-- **ill-typed values are refused before anything is assigned**: `atoms_ids = [1.5, …]` (`IndexError` for another
-    length, else `TypeError`) and `resname = 7` (`TypeError`; `AttributeError` on a Molecule) leave heap and
+    length, else `TypeError`; a list with at least one element: the empty list on an object without atoms holds no
+    ill-typed value and is accepted, assigning nothing) and `resname = 7` (`TypeError`; `AttributeError` on a Molecule) leave heap and
     environment literally as they were -/
 theorem bad_values_refused [Scalar α] (toDy : α → Option PyStr.Dy) (h : Heap α) (env : List Obj) (i n : Nat) :
-    (stepY toDy h env (.setIdsNonInt i n)).heap = h ∧ (stepY toDy h env (.setIdsNonInt i n)).err ≠ none ∧
+    (stepY toDy h env (.setIdsNonInt i n)).heap = h ∧
+    (0 < n → (stepY toDy h env (.setIdsNonInt i n)).err ≠ none) ∧
     (stepY toDy h env (.resnameNonStr i)).heap = h ∧ (stepY toDy h env (.resnameNonStr i)).err ≠ none ∧
     (∀ r gs, env[i]? = some (.res r) → h.res? r = some gs →
-      (stepY toDy h env (.setIdsNonInt i n)).err = some (if gs.length ≠ n then .indexError else .typeError)) := by
+      (stepY toDy h env (.setIdsNonInt i n)).err =
+        (if gs.length ≠ n then some .indexError else if n = 0 then none else some .typeError)) := by
   refine ⟨?_, ?_, ?_, ?_, ?_⟩
   · simp only [stepY]; cases env[i]? <;> simp [YStepR.fail]
-  · have hne : ∀ o, setIdsNonInt h o n ≠ none := by
+  · intro hn
+    have hne : ∀ o, setIdsNonInt h o n ≠ none := by
       intro o
       unfold setIdsNonInt
       repeat' split
-      all_goals simp
+      all_goals first | omega | simp
     simp only [stepY]
     cases hi : env[i]? with
     | none => simp [YStepR.fail]
@@ -253,7 +257,6 @@ theorem bad_values_refused [Scalar α] (toDy : α → Option PyStr.Dy) (h : Heap
     | some o => cases o <;> simp [resnameNonStr]
   · intro r gs hi hr
     simp only [stepY, hi, setIdsNonInt, hr]
-    split <;> rfl
 
 /-! ### `update_from_molecule_top` -/
 
